@@ -402,6 +402,7 @@ def _execute(sc, root, want_texts):
         prev = "start"
         ver = pr.get("libver", 0)
         objstate = [dict(x) for x in pr.get("optobjs", [])]
+        pre_left = pr.get("precreate", 0)  # the first jobs use the compilers constructed up front
         if pr.get("pyopt"):
             bump("processes_with_asserts_stripped")
         if pr.get("precreate"):
@@ -415,12 +416,19 @@ def _execute(sc, root, want_texts):
             if "$obj" in o:
                 # what the host has put into that dictionary so far is what it asked for
                 objstate[o["$obj"]].update(o.get("$set", {}))
-                st_ = objstate[o["$obj"]]
-                o = {"optimize": bool(st_.get("optimize", False)), "wasm": bool(st_.get("wasm", False))}
+                # the key is the literal content the host has put into that dictionary (keys it never
+                # set stay absent: what an absent key defaults to is the compiler's business)
+                o = dict(objstate[o["$obj"]], **{"$literal": True})
                 bump("jobs_with_a_reused_options_object")
             key = _key(sc, i, o)
             if "import " in sc["sources"][i]:
-                key += f"|libs-v{ver}"  # the store content is part of the input
+                # the store content is part of the input: the build in the directory the process is in
+                # when it compiles AND (for a compiler constructed up front) the build in the directory
+                # it was constructed in - which of the two a compiler looks at is not fixed by C18
+                ctor_ver = pre_left and pr.get("libver", 0)
+                key += f"|libs-v{ver}" + (f"|ctor-v{ctor_ver}" if pre_left else "")
+            if pre_left:
+                pre_left -= 1
             kind = ob["o"]
             bump("compilations")
             bump("outcome_" + kind.split(":")[0].lower())
